@@ -17,13 +17,18 @@ def run(tier, seed):
                      consts=ec.consts({3, 5}, {"add", "act", "raise", "script", "loop", "flags", "break", "del", "adv", "prio"}, 12 if q else 20,
                                       scriptops={"break", "cont", "del", "act"}, durs=(0, 1)),
                      simulate=50 if q else 500, depth=600, constraint="GenConstraintNT"))
+    # deferred callbacks beyond the per-iteration quota (MAX_DEFERREDS_QUEUED = 32) run in a later iteration, none lost
+    gens.append(dict(name="C03_rand_defer",
+                     consts=ec.consts({1, 3}, {"defer", "act", "script", "loop", "flags", "break", "later", "prio"}, 10 if q else 16,
+                                      scriptops={"defer", "break", "act"}, durs=(0, 1), nd=36, maxiter=6),
+                     simulate=40 if q else 400, depth=600))
     plan = {
         "mc": [("C03_mc", ec.consts({1, 3}, {"act", "later", "prio", "script", "loop", "flags", "break", "exit", "add"}, 3 if q else 4,
                                     durs=(0, 1), scriptops={"break", "cont", "act", "later"}, maxcb=1, limitprio=0))],
         "gen": [dict(name="C03_exh", consts=ec.consts({1, 3}, {"act", "later", "script", "loop", "flags", "exit"},
                                                       3, durs=(0,), scriptops={"break", "cont", "act", "later"}, nprio=2))] + gens,
         "need_ops": ["act", "later", "prio", "loop", "break", "cont", "exit", "script:break", "script:cont", "script:act",
-                     "script:later", "script:exit", "cb:cb"],
+                     "script:later", "script:exit", "cb:cb", "defer", "cb:def"],
         "rule": "TLC generates histories mixing activations at different priorities from outside and from inside callbacks "
                 "(callback scripts: loopbreak, loopcontinue, loopexit, event_active, active_later, del, add), all loop flag "
                 "combinations and base configurations (max_dispatch_callbacks x limit_callbacks_after_prio); replayed on the "
